@@ -64,7 +64,8 @@ def observe(sid, other):
     return [{"op": "sq.SR", "id": sid},         # (a getter: reading it must not create the setting)
             {"op": "sq.new", "id": "z"},        # an empty operand without any settings: + still gates on the other operand
             {"op": "sq.add", "a": "z", "b": sid, "to": "sumz1"}, {"op": "sq.add", "a": sid, "b": "z", "to": "sumz2"},
-            {"op": "sq.check", "id": sid}, {"op": "sq.channels", "id": sid},
+            {"op": "sq.check", "id": sid}, {"op": "sq.check", "id": sid, "verbose": True, "positional": len(sid + other) % 2 == 0},
+            {"op": "sq.check", "id": sid, "verbose": 1}, {"op": "sq.channels", "id": sid},
             {"op": "sq.forge", "id": sid, "delays": True, "filters": True, "time": False},
             {"op": "sq.add", "a": sid, "b": other, "to": "sum1"}, {"op": "sq.add", "a": other, "b": sid, "to": "sum2"},
             {"op": "tl.repvary", "seq": sid, "to": "rv", "lens": [0, 0, 0, 0, 0], "poss": [], "vars": []},
